@@ -17,7 +17,10 @@ KEEP_PREFIX = 1
 
 
 CONTROL = [0xc0, 0xc8, 0xd0, 0xd8, 0xc9, 0xd9, 0xe9, 0xc7, 0xcf, 0xd7, 0xdf, 0xe7, 0xef, 0xf7, 0xff]
-SAFE1 = [op for op in range(0x04, 0xc0) if cpugen.length(op) == 1 and op not in (0x76, 0x10, 0x18, 0x20, 0x28, 0x30, 0x38)]
+# LD H,(HL) / LD L,(HL) executed twice (halt bug) read through a pointer made of the byte just loaded: it can land anywhere,
+# including bus regions the CPU-level test bus does not model, so they are not used where the halt bug can trigger
+TWICE_UNSAFE = (0x66, 0x6e)
+SAFE1 = [op for op in range(0x04, 0xc0) if cpugen.length(op) == 1 and op not in (0x76, 0x10, 0x18, 0x20, 0x28, 0x30, 0x38) + TWICE_UNSAFE]
 
 
 def halt_case(rng, ime, pend, op, idle, cb=None, prefix=None):
@@ -72,7 +75,7 @@ def generate(rng, tier):
     for ime in (0, 1):
         for pend in ('pending', 'masked', 'none'):
             for op in ops:
-                if ime == 0 and pend == 'pending' and (cpugen.length(op) != 1 or op in CONTROL):
+                if ime == 0 and pend == 'pending' and (cpugen.length(op) != 1 or op in CONTROL or op in TWICE_UNSAFE):
                     op = rng.choice(SAFE1)
                 idle = rng.choice(idles)
                 cases.append(('h%d' % n, halt_case(rng, ime, pend, op, idle)))
